@@ -63,7 +63,7 @@ pub fn call(name: &str, mut args: Vec<Sx>) -> Sx {
 }
 
 /// exact encoding of an f64: (m e) with value = m * 2^e, m odd or zero; `inf`, `-inf`, `nan` otherwise.
-/// -0.0 is encoded as the symbol `-0`.
+/// -0.0 is encoded as the symbol `nz`.
 pub fn f(v: f64) -> Sx {
     if v.is_nan() {
         return y("nan");
@@ -72,7 +72,7 @@ pub fn f(v: f64) -> Sx {
         return y(if v > 0.0 { "inf" } else { "-inf" });
     }
     if v == 0.0 {
-        return if v.is_sign_negative() { y("-0") } else { l(vec![z(0), z(0)]) };
+        return if v.is_sign_negative() { y("nz") } else { l(vec![z(0), z(0)]) };
     }
     let bits = v.to_bits();
     let sign: i128 = if bits >> 63 == 1 { -1 } else { 1 };
